@@ -457,3 +457,10 @@ func (b *PreBlock) Verify(key dbft.PublicKey, data []byte) error {
 }
 func (b *PreBlock) Transactions() []dbft.Transaction[H]     { return b.txs }
 func (b *PreBlock) SetTransactions(t []dbft.Transaction[H]) { b.txs = t }
+
+// withView returns p with another view number (scripted payloads only, before hashing).
+func (p *Payload) withView(v byte) *Payload {
+	p.view = v
+	p.hashed = false
+	return p
+}
